@@ -362,6 +362,21 @@ pub fn same_name_classes() -> Vec<Ill> {
   out
 }
 
+/// Members that collide with generated ones, and a generic method whose own type parameter has the
+/// name of a generic type inside the receiver's type arguments (the two must not be identified).
+pub fn generated_name_clashes() -> Vec<Ill> {
+  let mut out = vec![];
+  for (what, text) in [
+    ("struct class declares a method named like the generated constructor", "class Meth(val q: int) {\n  method init(k: int): int = this.q + k\n}\nclass Main {\n  function main(): unit = Process.println(Str.fromInt(Meth.init(3).init(5)))\n}\n"),
+    ("struct class declares a function named like the generated constructor", "class Own(val q: int) {\n  function init(k: int): Own = Own.init(k * 2)\n}\nclass Main {\n  function main(): unit = Process.println(Str.fromInt(Own.init(9).q))\n}\n"),
+    ("wrong operand type hidden by a type parameter named like the method's own", "class Box<T>(val v: T) {\n  method <A> fold(start: A, f: (A, T) -> A): A = f(start, this.v)\n}\nclass Main {\n  function <A> sumBad(b: Box<A>): int = b.fold(0, (acc, v) -> acc + v)\n  function main(): unit = Process.println(Str.fromInt(Main.sumBad(Box.init(\"s\"))))\n}\n"),
+    ("wrong operand type hidden by a class type parameter named like the method's own", "class Box<T>(val v: T) {\n  method <A> fold(start: A, f: (A, T) -> A): A = f(start, this.v)\n}\nclass Wrap<A>(val b: Box<A>) {\n  method sumBad(): int = this.b.fold(0, (acc, v) -> acc + v)\n}\nclass Main {\n  function main(): unit = Process.println(Str.fromInt(Wrap.init(Box.init(\"s\")).sumBad()))\n}\n"),
+  ] {
+    out.push(Ill { kind: "generated-name-clash", what: what.to_string(), modules: vec![("Main".into(), text.to_string())], target: "Main".into() });
+  }
+  out
+}
+
 /// Every generated family of programs that are ill-typed by construction.
 pub fn all_generated() -> Vec<Ill> {
   let mut v = conformance();
@@ -370,5 +385,6 @@ pub fn all_generated() -> Vec<Ill> {
   v.extend(bounds());
   v.extend(tparam_escape());
   v.extend(same_name_classes());
+  v.extend(generated_name_clashes());
   v
 }
